@@ -121,6 +121,8 @@ func (c *ptCase) applyPending() {
 const settleBound = 10 * time.Second
 
 func (c *ptCase) settle() {
+	c.ctx.R.Enter()
+	defer c.ctx.R.Leave()
 	deadline := time.Now().Add(settleBound)
 	for {
 		// (the watcher counter is raised by Call itself, the goroutine it spawns may not be visible yet on a
@@ -303,6 +305,11 @@ func (c *ptCase) flush(gs map[int64]goState) {
 }
 
 func runPoolCase(ctx *Ctx, maxWorkers, idle int, script []string) {
+	// the whole case runs under the call watchdog (every settle() inside marks progress): the harness looks into the
+	// dispatcher under the dispatcher's own mutex, and a worker that leaves with that mutex held would hold the
+	// harness for ever — `mon HANG` after 20 s without progress instead
+	ctx.R.Enter()
+	defer ctx.R.Leave()
 	c := &ptCase{ctx: ctx, script: script, mainGid: goid(), fireT: map[int]int{}, cancelled: map[int]bool{}, started: map[int]int{}, pendingSleep: map[int64][2]interface{}{}, heldGate: make(chan struct{}), cancellers: map[int64]*ptCanceller{},
 		base: time.Date(2030, 1, 1, 0, 0, 0, 0, time.UTC)}
 	// what one unit of the virtual clock stands for: a millisecond unless the script says otherwise
@@ -820,6 +827,10 @@ func runPool(ctx *Ctx) {
 		if r.Chance(1, 3) {
 			// a finer clock: one unit = 20 or 2 microseconds (delays and the idle time-out shrink with it)
 			script = append([]string{fmt.Sprintf("unit %d", []int{20, 2}[r.Intn(2)])}, script...)
+		}
+		if ctx.R.Enough() {
+			ctx.R.Comment("several violations recorded already: the remaining cases are skipped")
+			break
 		}
 		runPoolCase(ctx, maxWorkers, idle, script)
 	}
